@@ -21,6 +21,7 @@ import (
 	"github.com/andydunstall/piko/server/upstream"
 
 	"verif/harness/core"
+	"verif/harness/nodes"
 	"verif/harness/props"
 )
 
@@ -352,7 +353,74 @@ func runC19Case(rg *c19rig, c c19case, rnd *rand.Rand, sh *core.Shard) (sig, wha
 	return "", "", false
 }
 
+// c19EnabledGuard: on a fully assembled node rebalancing only runs when the
+// threshold is non-zero. A node with threshold 0 and a grossly imbalanced view
+// must close nothing over three rebalance periods; a node with a threshold in
+// the same situation is the positive control (it must shed, so the probe is
+// known to be able to see shedding).
+func c19EnabledGuard(sh *core.Shard) (sig, what string, inconclusive string) {
+	run := func(rb config.RebalanceConfig) (closed int, err error) {
+		n, err := nodes.StartNode(nodes.NodeOpts{Rebalance: rb, GossipInterval: 100 * time.Millisecond})
+		if err != nil {
+			return 0, err
+		}
+		defer n.Stop()
+		var ups []*nodes.RawUpstream
+		for i := 0; i < 8; i++ {
+			u, err := nodes.DialRawUpstream(n, fmt.Sprintf("g%d", i%2))
+			if err != nil {
+				return 0, err
+			}
+			ups = append(ups, u)
+		}
+		defer func() {
+			for _, u := range ups {
+				u.Close()
+			}
+		}()
+		if !core.WaitUntil(20*time.Second, 5*time.Millisecond, func() bool { return sum(n.Cluster().LocalNode().Endpoints) == 8 }) {
+			return 0, fmt.Errorf("upstreams did not register")
+		}
+		n.Cluster().AddNode(&cluster.Node{ID: "idle-peer", Status: cluster.NodeStatusActive, ProxyAddr: "127.0.0.1:1", AdminAddr: "127.0.0.1:1"})
+		time.Sleep(3500 * time.Millisecond) // three rebalance periods of one second
+		for _, u := range ups {
+			if u.Ended() {
+				closed++
+			}
+		}
+		return closed, nil
+	}
+	off, err := run(config.RebalanceConfig{Threshold: 0, ShedRate: 0.5, MinConns: 1})
+	if err != nil {
+		return "", "", err.Error()
+	}
+	on, err := run(config.RebalanceConfig{Threshold: 0.1, ShedRate: 0.5, MinConns: 1})
+	if err != nil {
+		return "", "", err.Error()
+	}
+	sh.Count("enabled_guard_probe", 1)
+	sh.Count("enabled_guard_control_sessions_shed", int64(on))
+	if off > 0 {
+		return "shed-while-disabled", fmt.Sprintf("rebalancing is disabled (threshold 0) but a node holding 8 connections next to an idle peer closed %d of them within 3.5 s", off), ""
+	}
+	if on == 0 {
+		return "", "", "positive control: a node with threshold 0.1 in the same situation shed nothing within 3.5 s, so the probe cannot see shedding"
+	}
+	return "", "", ""
+}
+
 func runC19(sh *core.Shard, a props.Args) {
+	if a.Shard == a.NShards-1 {
+		fmt.Println("CASE C19 enabled guard on a full node")
+		sig, what, inc := c19EnabledGuard(sh)
+		sh.Eval()
+		if inc != "" {
+			sh.Inconcl("enabled guard: %s", inc)
+		} else if sig != "" {
+			sh.Violate(sig, what, map[string]any{"kind": "enabled-guard"})
+			return
+		}
+	}
 	thresholds := []float64{0.05, 0.2, 0.5, 1, 3}
 	rates := []float64{0, 0.005, 0.1, 0.34, 0.5, 1}
 	mins := []uint{0, 1, 5, 20}
@@ -428,12 +496,12 @@ func runC19(sh *core.Shard, a props.Args) {
 func init() {
 	props.Register(&props.Prop{
 		ID: "C19", Level: "exploration", Race: true, ExhaustiveWhenAll: false,
-		Rule: "the real upstream.Server.Rebalance() with real sessions (WebSocket+yamux clients over loopback registered through the upstream route) and an injected routing view; one Rebalance() call per case; sessions closed = drop in open registered sessions read from the server immediately after the call, cross-checked against the number of clients whose session ended and against deregistration in the manager and cluster state. Reference (exact rational arithmetic, 1e-9 borderline band accepted either way): nothing is shed unless other nodes are known, local >= max(1,min_conns), local > avg and (local-avg)/avg >= threshold, avg = floor(active total / active nodes); when permitted, closed <= min(open, max(1, ceil(avg*shed_rate))). Grid enumerated completely: 5 thresholds x 6 rates x 4 minimums x 13 local counts x 12 views (active/unreachable/left peers with seeded counts), plus seeded cases with up to 80 (thorough 300) sessions. Distinct = hash of the case and its outcome. The 'enabled' guard (threshold 0 never rebalances) is exercised on a full node in C16/C20 workloads and by the dedicated probe of this check.",
+		Rule: "the real upstream.Server.Rebalance() with real sessions (WebSocket+yamux clients over loopback registered through the upstream route) and an injected routing view; one Rebalance() call per case; sessions closed = drop in open registered sessions read from the server immediately after the call, cross-checked against the number of clients whose session ended and against deregistration in the manager and cluster state. Reference (exact rational arithmetic, 1e-9 borderline band accepted either way): nothing is shed unless other nodes are known, local >= max(1,min_conns), local > avg and (local-avg)/avg >= threshold, avg = floor(active total / active nodes); when permitted, closed <= min(open, max(1, ceil(avg*shed_rate))). Grid enumerated completely: 5 thresholds x 6 rates x 4 minimums x 13 local counts x 12 views (active/unreachable/left peers with seeded counts), plus seeded cases with up to 80 (thorough 300) sessions. Distinct = hash of the case and its outcome. The 'enabled' guard: a fully assembled node with threshold 0 holding 8 connections next to an idle peer must close none within 3.5 s (three rebalance periods), while a twin with threshold 0.1 must shed (positive control).",
 		Assumptions: []string{
 			"safety only: no lower bound on shedding is asserted, but the run fails as 'observed nothing' if no case shed",
 			"rebalance configuration swapped per case through a verif-tagged setter (the server reads it on every call)",
 		},
-		RequireCounters: []string{"cases_shedding", "cases_not_permitted", "sessions_shed", "rebalance_calls"},
+		RequireCounters: []string{"cases_shedding", "cases_not_permitted", "sessions_shed", "rebalance_calls", "enabled_guard_probe", "enabled_guard_control_sessions_shed"},
 		Shards:          func(string) int { return 16 },
 		Run:             runC19,
 	})
